@@ -8,7 +8,7 @@
     - variables carry the crate's [Variable] order: Version < String < In < Contains < Extra, then the key
       (declaration index of the enum), then the value. *)
 From Coq Require Import List Bool NArith.
-From PV Require Import Base.Order Base.CutDef DD.DDModel.
+From PV Require Import Base.Order Base.CutDef DD.DDModel DD.DDPyVer.
 Import ListNotations.
 Open Scope N_scope.
 
@@ -154,5 +154,7 @@ Definition m_simplify_extras (extras : list str) (t : mdd) : mdd := trestrict (e
 Definition m_eval_extras (extras : list str) (t : mdd) : bool := eval_any (extras_only extras) t.
 Definition m_eval_extras_pv (pvk : N) (pvs : list version) (extras : list str) (t : mdd) : bool :=
   eval_any_pv pvk pvs (extras_only extras) t.
+Definition m_simplify_pv (pfv : N) (w : window (val:=val)) (t : mdd) : mdd := simplify_pv (VVersion pfv) w t.
+Definition m_complexify_pv (pfv : N) (w : window (val:=val)) (t : mdd) : mdd := complexify_pv (VVersion pfv) w t.
 Definition m_val_cmp (a b : val) : comparison := cmp a b.
 Definition m_var_cmp (a b : var) : comparison := cmp a b.
